@@ -1,8 +1,11 @@
 package server
 
 import (
+	"bufio"
 	"bytes"
+	"encoding/hex"
 	"fmt"
+	"os"
 	"math/rand"
 	"strings"
 	"testing"
@@ -13,7 +16,8 @@ import (
 // Mode "value": the REAL LockManager.ProcessLockData on a bare LockManager, driven by seeded random
 // sequences of value frames. One line per sequence:
 //   value <locked> <waited01> <lock|unlock> <updOrZero01> <fromAof01> <recover01> <frame hex>;<frame hex>;...
-// observation per frame (joined by ';'):  nil | <data hex> <commandType> <isAof01> <data[len:cap] hex> | panic
+// observation per frame (joined by ';'):  nil | <data hex> <commandType> <isAof01> <data[len:cap] hex> | refused | panic
+//   (refused = NewLockCommandDataFromOriginBytes returned nil: the stream parser answers with an error)
 // Monitors (evaluated on the real code only, independent of the Lean model):
 //   value-mismatch:<OP>…  a plain sequential interpreter (bytes / int64 / array) disagrees with the real cell
 //   len-prefix:<OP>        the cell's 4-byte length prefix is not len-4 (the cell is sent to clients as a frame)
@@ -611,8 +615,84 @@ func vv01(b bool) string {
 	return "0"
 }
 
+// Replay: VERIF_VALUE_REPLAY=<file of op lines> runs exactly those lines on the real code (observation + panic monitor only).
+func vvReplay(out *vOut, path string) {
+	fh, err := os.Open(path)
+	if err != nil {
+		panic(err)
+	}
+	defer fh.Close()
+	sc := bufio.NewScanner(fh)
+	sc.Buffer(make([]byte, 1<<20), 1<<26)
+	for sc.Scan() {
+		line := strings.TrimSpace(sc.Text())
+		t := strings.Split(line, " ")
+		if len(t) != 8 || t[0] != "value" {
+			continue
+		}
+		var locked uint32
+		fmt.Sscan(t[1], &locked)
+		waited, unlock, upd, aof, rec := t[2] == "1", t[3] == "unlock", t[4] == "1", t[5] == "1", t[6] == "1"
+		lm := &LockManager{locked: locked, waited: waited}
+		var obs []string
+		for i, fx := range strings.Split(t[7], ";") {
+			var f []byte
+			if fx != "-" {
+				f, _ = hex.DecodeString(fx)
+			}
+			f = vvClone(f)
+			sent, pre, panicked, refusedByParser := vvClone(f), lm.currentData, false, false
+			func() {
+				defer func() {
+					if e := recover(); e != nil {
+						panicked = true
+					}
+				}()
+				c := &protocol.LockCommand{}
+				c.CommandType = protocol.COMMAND_LOCK
+				if unlock {
+					c.CommandType = protocol.COMMAND_UNLOCK
+				}
+				if upd {
+					c.Flag |= protocol.LOCK_FLAG_UPDATE_WHEN_LOCKED
+				} else {
+					c.Expried = 10
+				}
+				if aof {
+					c.Flag |= protocol.LOCK_FLAG_FROM_AOF
+				}
+				c.Data = protocol.NewLockCommandDataFromOriginBytes(f)
+				if c.Data == nil {
+					refusedByParser = true
+					return
+				}
+				lm.ProcessLockData(c, &Lock{manager: lm, command: c}, rec)
+			}()
+			if refusedByParser {
+				obs = append(obs, "refused")
+				continue
+			}
+			if panicked {
+				obs = append(obs, "panic")
+				cls := vvClassify(sent, pre, rec)
+				out.monitor("panic:"+cls, "ProcessLockData panics on a client-supplied value frame ("+cls+")", map[string]interface{}{"op": line, "frame_index": i})
+				lm = &LockManager{locked: locked, waited: waited}
+				continue
+			}
+			obs = append(obs, vvShowCell(lm.currentData))
+		}
+		out.emit(line, strings.Join(obs, ";"))
+	}
+}
+
 func init() {
 	vModes["value"] = func(t *testing.T) {
+		if p := os.Getenv("VERIF_VALUE_REPLAY"); p != "" {
+			out := vOpen("value")
+			defer out.close()
+			vvReplay(out, p)
+			return
+		}
 		r := rand.New(rand.NewSource(int64(vEnvInt("VERIF_SEED", 1))))
 		n := vEnvInt("VERIF_N", 2000)
 		out := vOpen("value")
@@ -646,7 +726,7 @@ func init() {
 						c.Flag |= protocol.LOCK_FLAG_UPDATE_WHEN_LOCKED
 						c.Expried = uint16(r.Intn(3))
 					} else {
-						c.Expried, c.ExpriedFlag = 0, uint16(r.Intn(2))*protocol.EXPRIED_FLAG_MILLISECOND_TIME
+						c.Expried, c.ExpriedFlag = 0, []uint16{0, protocol.EXPRIED_FLAG_ZEOR_AOF_TIME, protocol.EXPRIED_FLAG_KEEPLIVED | 0x0008}[r.Intn(3)] // no bit of 0x4440
 					}
 				} else if r.Intn(2) == 0 {
 					c.Expried = uint16(1 + r.Intn(100))
@@ -692,7 +772,7 @@ func init() {
 				}
 				lineSoFar := fmt.Sprintf("value %d %s %s %s %s %s %s", locked, vv01(waited), cmdName, vv01(upd), vv01(aof), vv01(rec), strings.Join(append(frames, vHex(sent)), ";"))
 				replay := map[string]interface{}{"op": lineSoFar, "frame_index": s, "cell_before": vvShowCell(pre)}
-				panicked := false
+				panicked, refusedByParser := false, false
 				func() {
 					defer func() {
 						if e := recover(); e != nil {
@@ -702,10 +782,21 @@ func init() {
 					}()
 					command := newCommand()
 					command.Data = protocol.NewLockCommandDataFromOriginBytes(f)
+					if command.Data == nil { // refused by the parser: ProcessParseLockData answers with an error
+						refusedByParser = true
+						return
+					}
 					lock := &Lock{manager: lm, command: command}
 					lm.ProcessLockData(command, lock, rec)
 				}()
 				frames = append(frames, vHex(sent))
+				if refusedByParser {
+					obs = append(obs, "refused")
+					if wf {
+						out.monitor("refused-well-formed:"+op.kind, "a well-formed value frame is refused by NewLockCommandDataFromOriginBytes", replay)
+					}
+					continue
+				}
 				if panicked {
 					obs = append(obs, "panic")
 					cls := vvClassify(sent, pre, rec)
